@@ -37,6 +37,7 @@ from mujoco_warp._src.types import Data
 from mujoco_warp._src.types import GeomType
 from mujoco_warp._src.types import Model
 from mujoco_warp._src.types import ObjType
+from mujoco_warp._src.types import ProjectionType
 from mujoco_warp._src.types import RenderContext
 from mujoco_warp._src.warp_util import event_scope
 
@@ -802,6 +803,16 @@ def render(m: Model, d: Data, rc: RenderContext):
     ray_origin_world = cam_xpos_in[worldid, mujoco_cam_id]
     cam_mat_world = cam_xmat_in[worldid, mujoco_cam_id]
     ray_dir_world = cam_mat_world @ ray_dir_local_cam
+
+    if cam_projection[mujoco_cam_id] == ProjectionType.ORTHOGRAPHIC:
+      # orthographic rays are parallel: each pixel has its own origin in the image plane, fovy is the vertical extent of the view
+      ortho_w = cam_res[camid][0]
+      ortho_h = cam_res[camid][1]
+      half_height = 0.5 * cam_fovy[worldid % cam_fovy.shape[0], mujoco_cam_id]
+      half_width = half_height * float(ortho_w) / float(ortho_h)
+      ortho_u = (float(rayid_local % ortho_w) + 0.5) / float(ortho_w)
+      ortho_v = (float(rayid_local // ortho_w) + 0.5) / float(ortho_h)
+      ray_origin_world += cam_mat_world @ wp.vec3(half_width * (2.0 * ortho_u - 1.0), half_height * (1.0 - 2.0 * ortho_v), 0.0)
 
     geom_id, dist, normal, u, v, f, mesh_id = cast_ray(
       geom_type,
